@@ -92,6 +92,8 @@ Proof.
     + apply P_bound_other. eapply replies_not_commit; eauto.
 Qed.
 
+Ltac rw_stash := match goal with Hs : rd_stash (st_rd ?s ?r) = _ |- _ => rewrite Hs end.
+
 Lemma step_bound : forall cfg s l s',
   inv_bound s /\ hist_ok P_bound (st_hist s) -> step cfg s l = Some s' ->
   inv_bound s' /\ hist_ok P_bound (st_hist s').
@@ -100,7 +102,7 @@ Proof.
   destruct l; cbn [step] in H; destr_step H;
   (* the commit-loop completions *)
   try (match goal with |- context [finish _ _ _ _ _ _ _ _ []] =>
-         apply finish_bound; auto; intros e1 esa esb E; destruct esa; discriminate E end);
+         apply finish_bound; auto; intros e1 esa esb Eq; destruct esa; discriminate Eq end);
   (* frame cases *)
   try (split;
        [ first [ eapply (inv_bound_frame _ _ []); [reflexivity|frame_tac|exact Hi]
@@ -114,61 +116,61 @@ Proof.
     split.
     + intros r'. cbn [push set_rd st_rd st_hist]. destruct (Hi r') as [I1 I2]. rd_cases r' r; cbn.
       * split.
-        -- intros rq t c H1 H2. apply in_app_or in H1. destruct H1 as [H1|[<-|[]]].
+        -- intros rq t0 c0 H1 H2. apply in_app_or in H1. destruct H1 as [H1|[<-|[]]].
            ++ apply (passed_mono [_]). eapply I1; eauto.
            ++ cbn in H2. exists (st_ncall s), msgs. split; [left; reflexivity|apply makeCommits_In; exact H2].
-        -- intros t c H1. apply (passed_mono [_]). apply I2; exact H1.
-      * split; [intros rq t c H1 H2; apply (passed_mono [_]); eapply I1; eauto
-               |intros t c H1; apply (passed_mono [_]); apply I2; exact H1].
+        -- intros t0 c0 H1. apply (passed_mono [_]). apply I2; exact H1.
+      * split; [intros rq t0 c0 H1 H2; apply (passed_mono [_]); eapply I1; eauto
+               |intros t0 c0 H1; apply (passed_mono [_]); apply I2; exact H1].
     + cbn [push set_rd st_hist]. cbn. split; [exact I|exact Ho].
   - (* LCommitCall, interval *)
     split.
     + intros r'. cbn [push set_rd st_rd st_hist]. destruct (Hi r') as [I1 I2]. rd_cases r' r; cbn.
       * split.
-        -- intros rq t c H1 H2. apply in_app_or in H1. destruct H1 as [H1|[<-|[]]].
+        -- intros rq t0 c0 H1 H2. apply in_app_or in H1. destruct H1 as [H1|[<-|[]]].
            ++ apply (passed_mono [_; _]). eapply I1; eauto.
            ++ cbn in H2. exists (st_ncall s), msgs. split; [right; left; reflexivity|apply makeCommits_In; exact H2].
-        -- intros t c H1. apply (passed_mono [_; _]). apply I2; exact H1.
-      * split; [intros rq t c H1 H2; apply (passed_mono [_; _]); eapply I1; eauto
-               |intros t c H1; apply (passed_mono [_; _]); apply I2; exact H1].
+        -- intros t0 c0 H1. apply (passed_mono [_; _]). apply I2; exact H1.
+      * split; [intros rq t0 c0 H1 H2; apply (passed_mono [_; _]); eapply I1; eauto
+               |intros t0 c0 H1; apply (passed_mono [_; _]); apply I2; exact H1].
     + cbn [push set_rd st_hist]. cbn. split; [exact I|split; [exact I|exact Ho]].
   - (* LLoopRecv sync *)
     split; [|exact Ho]. intros r'. cbn [set_rd st_rd st_hist]. destruct (Hi r') as [I1 I2]. rd_cases r' r; cbn.
     + rewrite E1 in I1. split.
-      * intros rq t c H1 H2. eapply I1; [right; exact H1|exact H2].
-      * intros t c H1. apply In_merge in H1. destruct H1 as [H1|H1]; [apply I2; exact H1|].
+      * intros rq t0 c0 H1 H2. eapply I1; [right; exact H1|exact H2].
+      * intros t0 c0 H1. apply In_merge in H1. destruct H1 as [H1|H1]; [apply I2; exact H1|].
         eapply I1; [left; reflexivity|exact H1].
     + split; assumption.
   - (* LLoopRecv interval *)
     split; [|exact Ho]. intros r'. cbn [set_rd st_rd st_hist]. destruct (Hi r') as [I1 I2]. rd_cases r' r; cbn.
     + rewrite E1 in I1. split.
-      * intros rq t c H1 H2. eapply I1; [right; exact H1|exact H2].
-      * intros t c H1. apply In_merge in H1. destruct H1 as [H1|H1]; [apply I2; exact H1|].
+      * intros rq t0 c0 H1 H2. eapply I1; [right; exact H1|exact H2].
+      * intros t0 c0 H1. apply In_merge in H1. destruct H1 as [H1|H1]; [apply I2; exact H1|].
         eapply I1; [left; reflexivity|exact H1].
     + split; assumption.
   - (* LLoopFinal *)
     split; [|exact Ho]. intros r'. cbn [set_rd st_rd st_hist]. destruct (Hi r') as [I1 I2]. rd_cases r' r; cbn.
-    + split; [intros rq t c []|].
-      intros t c H1. apply In_foldmerge in H1. destruct H1 as [H1|[rq [H1 H2]]]; [apply I2; exact H1|].
+    + split; [intros rq t0 c0 []|].
+      intros t0 c0 H1. apply In_foldmerge in H1. destruct H1 as [H1|[rq [H1 H2]]]; [apply I2; exact H1|].
       eapply I1; eauto.
     + split; assumption.
   - (* LLoopAttempt: success *)
     apply finish_bound; auto.
     intros e1 esa esb Eq. destruct esa as [|? esa]; [|destruct esa; discriminate Eq].
-    inversion Eq; subst. cbn. intros t c H1. apply (proj2 (Hi r)). rewrite E1. exact H1.
+    inversion Eq; subst. cbn. intros t0 c0 H1. apply (proj2 (Hi r)). match goal with Hs : rd_stash (st_rd s r) = _ |- _ => rewrite Hs end. exact H1.
   - (* LLoopAttempt: last failure *)
     apply finish_bound; auto.
     intros e1 esa esb Eq. destruct esa as [|? esa]; [|destruct esa; discriminate Eq].
-    inversion Eq; subst. cbn. intros t c H1. apply (proj2 (Hi r)). rewrite E1. exact H1.
+    inversion Eq; subst. cbn. intros t0 c0 H1. apply (proj2 (Hi r)). match goal with Hs : rd_stash (st_rd s r) = _ |- _ => rewrite Hs end. exact H1.
   - (* LLoopAttempt: failure, retry *)
     split.
     + intros r'. cbn [push set_rd set_co st_rd st_hist]. destruct (Hi r') as [I1 I2]. rd_cases r' r; cbn.
-      * split; [intros rq t c H1 H2; apply (passed_mono [_]); eapply I1; eauto
-               |intros t c H1; apply (passed_mono [_]); apply I2; exact H1].
-      * split; [intros rq t c H1 H2; apply (passed_mono [_]); eapply I1; eauto
-               |intros t c H1; apply (passed_mono [_]); apply I2; exact H1].
+      * split; [intros rq t0 c0 H1 H2; apply (passed_mono [_]); eapply I1; eauto
+               |intros t0 c0 H1; apply (passed_mono [_]); apply I2; rw_stash; exact H1].
+      * split; [intros rq t0 c0 H1 H2; apply (passed_mono [_]); eapply I1; eauto
+               |intros t0 c0 H1; apply (passed_mono [_]); apply I2; exact H1].
     + cbn [push set_rd set_co st_hist]. cbn. split; [|exact Ho].
-      intros t c H1. apply (proj2 (Hi r)). rewrite E1. exact H1.
+      intros t0 c0 H1. apply (proj2 (Hi r)). rw_stash. exact H1.
 Qed.
 
 Lemma init_bound : inv_bound init /\ hist_ok P_bound (st_hist init).
@@ -181,7 +183,200 @@ Theorem commit_bound : forall cfg ls s, run (step cfg) init ls = Some s ->
 Proof.
   intros cfg ls s Hrun h1 r mid g offs code ap h2 Hs t c Hin.
   assert (J : inv_bound s /\ hist_ok P_bound (st_hist s)).
-  { eapply (inv_run (step cfg) (fun x => inv_bound x /\ hist_ok P_bound (st_hist x)));
+  { eapply (@inv_run _ _ (step cfg) (fun x => inv_bound x /\ hist_ok P_bound (st_hist x)));
       [|exact init_bound|exact Hrun]. intros; eapply step_bound; eauto. }
   pose proof (hist_ok_split P_bound _ _ _ _ (proj2 J) Hs) as Hp. cbn in Hp. exact (Hp t c Hin).
+Qed.
+
+(* ================================================================ sync commit recorded *)
+(* after the acknowledged commit e (code 0, applied) the coordinator's committed offset of t
+   is >= c, and the call (r,id) is older than e *)
+Definition acked (h : list event) (r id : nat) (t : tp) (c : Z) : Prop :=
+  exists ha r' mid g offs hb c',
+    h = ha ++ EvOffsetCommit r' mid g offs 0 true :: hb /\
+    hist_committed (EvOffsetCommit r' mid g offs 0 true :: hb) t = Some c' /\ c <= c' /\
+    exists msgs, In (EvCommitCall r id msgs) hb.
+
+Definition P_sync (cfg : config) (e : event) (h : list event) : Prop :=
+  match e with
+  | EvCommitRet r id RNil =>
+    cfg_sync cfg = true ->
+    exists msgs, In (EvCommitCall r id msgs) h /\ forall t o, In (t, o) msgs -> acked h r id t (o + 1)
+  | _ => True
+  end.
+
+Definition inv_sync (s : state) : Prop :=
+  forall r,
+    (forall rq, In rq (rd_commits (st_rd s r)) ->
+       exists msgs, In (EvCommitCall r (cq_id rq) msgs) (st_hist s) /\ cq_commits rq = makeCommits msgs) /\
+    (forall ws lft final le, rd_loop (st_rd s r) = CLBusy ws lft final le ->
+       forall id, In id ws ->
+       exists msgs, In (EvCommitCall r id msgs) (st_hist s) /\
+         forall t o, In (t, o) msgs -> le_opt (o + 1) (lookup (rd_stash (st_rd s r)) t)).
+
+Lemma inv_sync_frame : forall s s' es,
+  st_hist s' = es ++ st_hist s ->
+  (forall r, (forall rq, In rq (rd_commits (st_rd s' r)) -> In rq (rd_commits (st_rd s r))) /\
+             ((rd_loop (st_rd s' r) = rd_loop (st_rd s r) /\ rd_stash (st_rd s' r) = rd_stash (st_rd s r)) \/
+              rd_loop (st_rd s' r) = CLIdle \/ rd_loop (st_rd s' r) = CLExited)) ->
+  inv_sync s -> inv_sync s'.
+Proof.
+  intros s s' es Hh Hf Hi r. destruct (Hi r) as [I1 I2]. destruct (Hf r) as [F1 F2]. rewrite Hh. split.
+  - intros rq H. destruct (I1 rq (F1 rq H)) as [msgs [A B]]. exists msgs; split; [apply in_or_app; right; exact A|exact B].
+  - intros ws lft final le HL id Hid. destruct F2 as [[F2 F3]|[F2|F2]]; [|rewrite F2 in HL; discriminate HL..].
+    rewrite F2 in HL. rewrite F3. destruct (I2 _ _ _ _ HL id Hid) as [msgs [A B]].
+    exists msgs; split; [apply in_or_app; right; exact A|exact B].
+Qed.
+
+Ltac frame_sync_tac :=
+  let r' := fresh "r'" in intros r'; cbn [push set_rd set_co st_rd st_hist];
+  try (match goal with |- context [upd _ ?r _ r'] => rd_cases r' r end);
+  cbn; (split; [intros ? ?; auto; try contradiction|auto]).
+
+Lemma P_sync_other : forall cfg es h,
+  (forall e, In e es -> match e with EvCommitRet _ _ RNil => False | _ => True end) ->
+  forall e1 esa esb, es = esa ++ e1 :: esb -> P_sync cfg e1 (esb ++ h).
+Proof.
+  intros cfg es h H e1 esa esb E. assert (Hin : In e1 es) by (rewrite E; apply in_or_app; right; left; reflexivity).
+  specialize (H e1 Hin). destruct e1; cbn; auto. destruct res; [contradiction|exact I].
+Qed.
+
+Lemma makeCommits_In' : forall msgs t o, In (t, o) msgs -> In (t, o + 1) (makeCommits msgs).
+Proof.
+  intros msgs t o H. unfold makeCommits. apply in_map_iff. exists (t, o). split; [reflexivity|exact H].
+Qed.
+
+Lemma finish_sync : forall cfg s0 s r ws lft final le (ok : bool) code pre,
+  st_hist s0 = st_hist s -> st_rd s0 = st_rd s ->
+  inv_sync s -> hist_ok (P_sync cfg) (st_hist s) ->
+  rd_loop (st_rd s r) = CLBusy ws lft final le ->
+  (ok = true -> (pre = [] /\ rd_stash (st_rd s r) = []) \/
+                exists mid g, pre = [EvOffsetCommit r mid g (rd_stash (st_rd s r)) 0 true]) ->
+  (forall e, In e pre -> match e with EvCommitRet _ _ RNil => False | _ => True end) ->
+  inv_sync (finish cfg s0 r (st_rd s r) ws final ok code pre) /\
+  hist_ok (P_sync cfg) (st_hist (finish cfg s0 r (st_rd s r) ws final ok code pre)).
+Proof.
+  intros cfg s0 s r ws lft final le ok code pre Hh Hr Hi Ho HL Hok Hpre.
+  destruct (finish_hist cfg s0 r (st_rd s r) ws final ok code pre) as [es [w [Hrep Hhist]]].
+  split.
+  - intros r'. rewrite Hhist, Hh. destruct (Hi r') as [I1 I2].
+    destruct (Nat.eq_dec r' r) as [->|Hn].
+    + destruct (finish_rd_same cfg s0 r (st_rd s r) ws final ok code pre) as [w' ->]. cbn. split.
+      * intros rq H. destruct (I1 rq H) as [msgs [A B]]. exists msgs; split; [|exact B].
+        rewrite app_assoc; apply in_or_app; right; exact A.
+      * intros ws' l' f' le' HL'. destruct final; discriminate HL'.
+    + rewrite finish_rd_other by exact Hn. rewrite Hr. split.
+      * intros rq H. destruct (I1 rq H) as [msgs [A B]]. exists msgs; split; [|exact B].
+        rewrite app_assoc; apply in_or_app; right; exact A.
+      * intros ws' l' f' le' HL' id Hid. destruct (I2 _ _ _ _ HL' id Hid) as [msgs [A B]].
+        exists msgs; split; [|exact B]. rewrite app_assoc; apply in_or_app; right; exact A.
+  - rewrite Hhist, Hh. apply hist_ok_app.
+    + apply hist_ok_app; [exact Ho|]. apply P_sync_other; exact Hpre.
+    + intros e1 esa esb Ees.
+      assert (Hin : In e1 es) by (rewrite Ees; apply in_or_app; right; left; reflexivity).
+      destruct (replies_events _ _ _ _ _ _ Hrep e1 Hin) as [id [Hid ->]].
+      destruct ok; [|exact I]. cbn. intros _.
+      destruct (proj2 (Hi r) _ _ _ _ HL id Hid) as [msgs [A B]].
+      exists msgs. split; [apply in_or_app; right; apply in_or_app; right; exact A|].
+      intros t o Hto. destruct (B t o Hto) as [c' [Hl Hc]].
+      destruct (Hok eq_refl) as [[-> Hst]|[mid [g ->]]].
+      * rewrite Hst in Hl; discriminate Hl.
+      * exists esb, r, mid, g, (rd_stash (st_rd s r)), (st_hist s), c'.
+        split; [reflexivity|]. split; [cbn [hist_committed]; rewrite Hl; reflexivity|].
+        split; [exact Hc|exists msgs; exact A].
+Qed.
+
+Lemma step_sync : forall cfg s l s', cfg_sync cfg = true ->
+  inv_sync s /\ hist_ok (P_sync cfg) (st_hist s) -> step cfg s l = Some s' ->
+  inv_sync s' /\ hist_ok (P_sync cfg) (st_hist s').
+Proof.
+  intros cfg s l s' Hsync [Hi Ho] H.
+  destruct l; cbn [step] in H; destr_step H;
+  try congruence;
+  (* frame cases *)
+  try (split;
+       [ first [ eapply (inv_sync_frame _ _ []); [reflexivity|frame_sync_tac|exact Hi]
+               | eapply inv_sync_frame; [cbn [push set_rd set_co st_hist]; reflexivity|frame_sync_tac|exact Hi] ]
+       | cbn [push set_rd set_co st_hist];
+         first [ exact Ho
+               | apply hist_ok_app; [exact Ho|apply P_sync_other; intros e He; cbn in He;
+                   repeat (destruct He as [He|He]; [subst e; exact I|]); try contradiction;
+                   try (apply in_rev in He; apply in_map_iff in He; destruct He as [? [<- _]]; exact I)] ] ]; fail).
+  - (* LCommitCall sync *)
+    split.
+    + intros r'. cbn [push set_rd st_rd st_hist]. destruct (Hi r') as [I1 I2]. rd_cases r' r; cbn.
+      * split.
+        -- intros rq H1. apply in_app_or in H1. destruct H1 as [H1|[<-|[]]].
+           ++ destruct (I1 rq H1) as [m [A B]]. exists m; split; [right; exact A|exact B].
+           ++ exists msgs. split; [left; reflexivity|reflexivity].
+        -- intros ws lft final le HL id Hid. destruct (I2 _ _ _ _ HL id Hid) as [m [A B]].
+           exists m; split; [right; exact A|exact B].
+      * split.
+        -- intros rq H1. destruct (I1 rq H1) as [m [A B]]. exists m; split; [right; exact A|exact B].
+        -- intros ws lft final le HL id Hid. destruct (I2 _ _ _ _ HL id Hid) as [m [A B]].
+           exists m; split; [right; exact A|exact B].
+    + cbn [push set_rd st_hist]. cbn. split; [exact I|exact Ho].
+  - (* LLoopRecv sync *)
+    split; [|exact Ho]. intros r'. cbn [set_rd st_rd st_hist]. destruct (Hi r') as [I1 I2]. rd_cases r' r; cbn.
+    + match goal with Hc : rd_commits (st_rd s r) = _ |- _ => rewrite Hc in I1 end. split.
+      * intros rq H1. apply I1. right; exact H1.
+      * intros ws lft final le HL id Hid. inversion HL; subst. destruct Hid as [<-|[]].
+        destruct (I1 _ (or_introl eq_refl)) as [m [A B]]. exists m; split; [exact A|].
+        intros t0 o Hto. rewrite B. apply merge_covers. apply makeCommits_In'. exact Hto.
+    + split; assumption.
+  - (* LLoopFinal *)
+    split; [|exact Ho]. intros r'. cbn [set_rd st_rd st_hist]. destruct (Hi r') as [I1 I2]. rd_cases r' r; cbn.
+    + split; [intros rq []|].
+      intros ws lft final le HL id Hid. inversion HL; subst. rewrite Hsync in Hid.
+      apply in_map_iff in Hid. destruct Hid as [rq [<- Hrq]].
+      destruct (I1 rq Hrq) as [m [A B]]. exists m; split; [exact A|].
+      intros t0 o Hto. eapply foldmerge_covers; [exact Hrq|]. rewrite B. apply makeCommits_In'. exact Hto.
+    + split; assumption.
+  - (* LLoopAttempt, empty stash *)
+    eapply finish_sync; eauto. intros e [].
+  - (* LLoopAttempt success *)
+    eapply finish_sync; eauto.
+    + intros _. right. exists mid, g.
+      assert (z = 0) by lia. subst z.
+      assert (b = true).
+      { destruct f; inversion E3; subst; try reflexivity; try discriminate; try lia. }
+      subst b. rw_stash. reflexivity.
+    + intros e [<-|[]]. exact I.
+  - (* LLoopAttempt last failure *)
+    eapply finish_sync; eauto.
+    + intros Hc; discriminate Hc.
+    + intros e [<-|[]]. exact I.
+  - (* retry *)
+    split.
+    + intros r'. cbn [push set_rd set_co st_rd st_hist]. destruct (Hi r') as [I1 I2]. rd_cases r' r; cbn.
+      * split.
+        -- intros rq H1. destruct (I1 rq H1) as [m [A B]]. exists m; split; [right; exact A|exact B].
+        -- intros ws lft fin le HL id Hid. inversion HL; subst.
+           destruct (I2 _ _ _ _ E0 id Hid) as [m [A B]]. exists m; split; [right; exact A|].
+           intros t0 o Hto. specialize (B t0 o Hto). match goal with Hs : rd_stash (st_rd s r) = _ |- _ => rewrite Hs in B end. exact B.
+      * split.
+        -- intros rq H1. destruct (I1 rq H1) as [m [A B]]. exists m; split; [right; exact A|exact B].
+        -- intros ws lft fin le HL id Hid. destruct (I2 _ _ _ _ HL id Hid) as [m [A B]].
+           exists m; split; [right; exact A|exact B].
+    + cbn [push set_rd set_co st_hist]. cbn. split; [exact I|exact Ho].
+  - (* give up *)
+    eapply finish_sync; eauto.
+    + intros Hc; discriminate Hc.
+    + intros e [].
+Qed.
+
+Lemma init_sync : forall cfg, inv_sync init /\ hist_ok (P_sync cfg) (st_hist init).
+Proof. intros; split; [|exact I]. intros r; cbn; split; intros; [contradiction|discriminate]. Qed.
+
+Theorem sync_commit_recorded : forall cfg ls s, cfg_sync cfg = true ->
+  run (step cfg) init ls = Some s ->
+  forall h1 r id h2, st_hist s = h1 ++ EvCommitRet r id RNil :: h2 ->
+  exists msgs, In (EvCommitCall r id msgs) h2 /\
+    forall t o, In (t, o) msgs -> acked h2 r id t (o + 1).
+Proof.
+  intros cfg ls s Hsync Hrun h1 r id h2 Hs.
+  assert (J : inv_sync s /\ hist_ok (P_sync cfg) (st_hist s)).
+  { eapply (@inv_run _ _ (step cfg) (fun x => inv_sync x /\ hist_ok (P_sync cfg) (st_hist x)));
+      [|apply init_sync|exact Hrun]. intros; eapply step_sync; eauto. }
+  pose proof (hist_ok_split (P_sync cfg) _ _ _ _ (proj2 J) Hs) as Hp. cbn in Hp. exact (Hp Hsync).
 Qed.
